@@ -178,4 +178,46 @@ reg(
               "required_classes": ["C18.target_cont_mh", "C18.chains_1", "C18.chains_3"]},
     exhaustive=True,
 )
+
+reg(
+    "C07",
+    "A case is a program *shape* from the grammar site | seq | lax.scan | modular_vmap | lax.cond (both branches sampling) | "
+    "@gen-simulate, nested to depth 3, whose sites all share parameters (normal(0,1) / uniform(0,1), some with a sample_shape), "
+    "and a key. Every scalar draw is a 'position'. Non-trivial: a site under >= 2 different enclosing constructs. "
+    "Distinct = hash of the shape.",
+    quick={"shards": 16, "timeout_s": 1200, "n_cases": 12, "n1": 4000,
+           "required_classes": ["C07.site_under_scan", "C07.site_under_vmap", "C07.site_under_cond", "C07.site_under_gen",
+                                "C07.nest_scan>scan", "C07.nest_scan>vmap", "C07.nest_vmap>scan", "C07.nest_scan>cond", "C07.nest_vmap>site_ss"]},
+    thorough={"shards": 16, "timeout_s": 3 * 3600, "n_cases": 150, "n1": 20000,
+              "required_classes": ["C07.nest_scan>scan", "C07.nest_scan>vmap", "C07.nest_vmap>scan", "C07.nest_scan>cond"]},
+)
+
+reg(
+    "C06",
+    "A case is a generated history over 1-2 generated programs (same shape grammar as C07, with @gen-simulate, nested "
+    "scans, conds, modular_vmap, sample_shape sites, positional/keyword/vector arguments): runs (program, key, mode in eager / "
+    "jit / vmap-over-keys / jit-of-vmap, argument) interleaved with interference (unseeded sampling that advances the global "
+    "counter, unseeded program runs, jax.clear_caches(), seeded runs with another argument shape that perturb the staging "
+    "cache). Non-trivial: the history contains a repeat separated from its first occurrence by >= 1 interference op and a "
+    "program with a scan, cond or vectorized site. Distinct = hash of the history.",
+    quick={"shards": 16, "timeout_s": 1200, "n_histories": 8,
+           "required_classes": ["C06.mode_eager", "C06.mode_jit", "C06.mode_vmap_keys", "C06.mode_jit_vmap_keys", "C06.repeat_after_interference",
+                                "C06.prog_with_scan", "C06.prog_with_cond", "C06.prog_with_vmap", "C06.prog_with_gen"]},
+    thorough={"shards": 16, "timeout_s": 3 * 3600, "n_histories": 100,
+              "required_classes": ["C06.mode_eager", "C06.mode_jit", "C06.mode_vmap_keys", "C06.mode_jit_vmap_keys", "C06.repeat_after_interference"]},
+)
+
+reg(
+    "C15",
+    "A case is a deterministic JAX program generated from an op grammar over a value stack (elementwise arithmetic, "
+    "comparisons/where, floor / integer round trips / argmax / value-computed gather indices, static and dynamic slicing, "
+    "reshape/transpose/stack/concatenate/cumsum/sort, reductions incl. logsumexp, dot/matmul/einsum/outer, lax.cond with a "
+    "data-dependent or constant predicate) and an argument pytree spec (scalars, vectors, matrices, dicts, nested tuples) with "
+    "random primals and tangents. Oracle: jax.jvp / jax.grad / f. Non-trivial: >= 3 ops incl. a shape-changing one, or a "
+    "non-differentiable intermediate, or a pytree argument. Distinct = hash of the case.",
+    quick={"shards": 16, "timeout_s": 1200, "n_cases": 30,
+           "required_classes": ["C15.args_scalar", "C15.args_vector", "C15.args_matrix", "C15.args_dict", "C15.args_tuple_nested", "C15.op_cond",
+                                "C15.op_linalg", "C15.op_index", "C15.nondifferentiable_intermediate", "C15.cond_data", "C15.cond_const"]},
+    thorough={"shards": 16, "timeout_s": 3 * 3600, "n_cases": 600, "required_classes": ["C15.args_dict", "C15.op_cond", "C15.op_linalg"]},
+)
 NOT_CLAIMED = {}
